@@ -14,9 +14,14 @@ def build_case(rnd):
     n = T + 2 + rnd.randint(0, 3)
     vals = [round(rnd.uniform(-50, 50), 3) for _ in range(n)]
     user_t = rnd.random() < 0.25
-    ic_on = rnd.choice(['x', 'LAGX', 'd', 'c', None])
+    alias = rnd.random() < 0.4
+    ic_on = rnd.choice(['x', 'LAGX', 'd', 'c', None] + (['a', 'a', 'LAGA'] if alias else []))
     ic_val = round(rnd.uniform(-9, 9), 2)
     lines = ['x = 0.5*LAGX + g + c', 'LAGX = x(k-1)', 'd = 2*x + 1', 'c = 3.']
+    if alias:
+        # an exact alias of x (equation reduction substitutes it), itself the source of a lag
+        lines += ['a = x', 'LAGA = a(%s-1)' % rnd.choice(['k', 't']), 'ee = LAGA + a']
+    second_T = rnd.choice([None, None, rnd.randint(0, 6)]) if side == 'parser' else None
     if user_t:
         lines.append('t = 10 + k')
     if ic_on:
@@ -45,7 +50,7 @@ def build_case(rnd):
         lines.append('MaxTime = %d' % T)
     else:
         lines.append('MaxTime = %d' % (T + 3))
-    return dict(text='\n'.join(lines), T=T, side=side, exo_kind=exo_kind, path=path, user_t=user_t, ic_on=ic_on, ic_val=ic_val, expect_error=expect_error)
+    return dict(alias=alias, second_T=second_T, text='\n'.join(lines), T=T, side=side, exo_kind=exo_kind, path=path, user_t=user_t, ic_on=ic_on, ic_val=ic_val, expect_error=expect_error)
 
 
 def check_case(c):
@@ -81,6 +86,21 @@ def check_case(c):
     for k in range(1, T + 1):
         if ts['LAGX'][k] != ts['x'][k - 1]:
             return 'LAGX(%d) = %r != x(%d) = %r' % (k, ts['LAGX'][k], k - 1, ts['x'][k - 1]), True
+        if c.get('alias') and ts['LAGA'][k] != ts['a'][k - 1]:
+            return 'LAGA(%d) = %r != a(%d) = %r  (a = %r, x = %r; %r)' % (k, ts['LAGA'][k], k - 1, ts['a'][k - 1], ts['a'], ts['x'], c['text']), True
+    if c.get('second_T') is not None:
+        # the same solver object re-parsed with another horizon: the new horizon is the one stated in the new block
+        T2 = c['second_T']
+        try:
+            s.ParseString(c['text'].replace('MaxTime = %d' % T, 'MaxTime = %d' % T2))
+            s.SolveEquation()
+        except ValueError:
+            if not (c['path'] is not None and len(c['path']) < T2 + 1):
+                return 'second solve with MaxTime = %d raised ValueError (%r)' % (T2, c['text']), True
+        else:
+            for name, ser in s.TimeSeries.items():
+                if len(ser) != T2 + 1:
+                    return 'second solve on the same solver: MaxTime = %d stated, series %s has %d points (%r)' % (T2, name, len(ser), c['text']), True
     if ts['k'] != [float(i) for i in range(T + 1)]:
         return 'k axis %r' % (ts['k'],), True
     if not c['user_t'] and ts['t'] != ts['k']:
